@@ -60,7 +60,6 @@ func c19Size(sc c19Scn, id int64) int {
 	}
 }
 
-type c19Fail struct{ sig, what string }
 
 // c19ErrClass maps an error to a coarse class for signatures.
 func c19ErrClass(err error) string {
